@@ -277,17 +277,29 @@ def check_kernels(ctx: common.Context) -> None:
             # -- allocation hands out every address of the range once, then reports exhaustion
             lo = symx.choose(3, "range_lo") + 1
             size = symx.choose(4, "range_size") + 1
-            n._range = {i: False for i in range(lo, lo + size)}
+            # the pool comes from the configured "range" through the real from_interface (both ends inclusive)
+            class _Iface:
+                pass
+
+            ifc = _Iface()
+            ifc.ip = SymIP(ip)
+            ifc.params = {"netmask": _dotted(mask_of(bits)), "range": f"{lo}-{lo + size - 1}"}
+            n.from_interface(ifc)
+            if not eng.prove(to_bv(n.net_ip) == net, "network address of the reference interface"):
+                raise symx.Violation("from_interface does not derive the network address of the interface", {"bits": bits, "class": "from_interface network"})
             seen = []
             for k in range(size):
-                a = n.get_allocatable_address()
+                try:
+                    a = n.get_allocatable_address()
+                except IndexError:
+                    raise symx.Violation(f"exhaustion reported after {k} of the {size} addresses of the configured range", {"bits": bits, "class": "allocate early exhaustion", "lo": lo, "size": size})
                 abv = to_bv(a)
                 if not eng.prove(abv == net + z3.BitVecVal(lo + k, 32), "k-th allocated address"):
-                    raise symx.Violation("allocated address is not network + next free offset", {"bits": bits, "class": "allocate value", "k": k})
+                    raise symx.Violation("allocated address is not network + next free offset", {"bits": bits, "class": "allocate value", "k": k, "lo": lo, "size": size})
                 seen.append(abv)
             try:
                 n.get_allocatable_address()
-                raise symx.Violation("allocation beyond the range did not report exhaustion", {"bits": bits, "class": "allocate exhaustion"})
+                raise symx.Violation("allocation beyond the range did not report exhaustion", {"bits": bits, "class": "allocate exhaustion", "lo": lo, "size": size})
             except IndexError:
                 pass
             results["allocate"] += 1
@@ -343,6 +355,25 @@ def replay_kernel(data: dict[str, Any]) -> tuple[bool, str]:
         got = n._get_network_ip(data["ip"], bits)
         want = str(ipaddress.ip_interface(f"{data['ip']}/{bits}").network.network_address)
         return got != want, f"{got} vs {want}"
+    if cls.startswith("allocate"):
+        class _Iface:
+            pass
+
+        lo, size = data["lo"], data["size"]
+        bits = min(bits, 24) if lo + size >= 2 ** (32 - bits) else bits
+        ifc = _Iface()
+        ifc.ip = str(ipaddress.ip_network(f"10.0.0.0/{bits}").network_address + 1) if bits < 32 else "10.0.0.0"
+        ifc.params = {"netmask": str(ipaddress.ip_network(f"0.0.0.0/{bits}").netmask), "range": f"{lo}-{lo + size - 1}"}
+        n.from_interface(ifc)
+        base = ipaddress.ip_interface(f"{ifc.ip}/{bits}").network.network_address
+        got = []
+        try:
+            for _ in range(size + 1):
+                got.append(n.get_allocatable_address())
+        except IndexError:
+            pass
+        want = [str(base + lo + k) for k in range(size)]
+        return got != want, f"range {lo}-{lo + size - 1}: handed out {got}, expected {want} and then exhaustion"
     return False, "no concrete replay for " + cls
 
 
@@ -470,7 +501,20 @@ def _net_factory():
             try:
                 net = VMNetwork(params, env)
             except IndexError as e:
-                # documented misconfiguration error (same network address, different netmask)
+                # documented misconfiguration error: two interfaces with different netmasks where one lies in the
+                # other's subnet or both have the same network address.  The rejection is only legitimate if every
+                # assignment of addresses on this path contains such a pair.
+                pairs = []
+                for (ka, a), (kb, b) in itertools.permutations(list(addrs.items()), 2):
+                    pa, pb = prefixes[tuple(ka.split("."))], prefixes[tuple(kb.split("."))]
+                    if pa == pb:
+                        continue
+                    ma, mb = z3.BitVecVal(mask_of(pa), 32), z3.BitVecVal(mask_of(pb), 32)
+                    pairs.append(z3.Or((a & mb) == (b & mb), (a & ma) == (b & mb)))
+                if not eng.prove(z3.Or(*pairs) if pairs else z3.BoolVal(False), "the rejected configuration contains interfaces with conflicting netmasks"):
+                    model = eng.last_model if eng.last_model is not None else eng.current_model()
+                    desc["addresses"] = {k: _dotted(model.eval(v, model_completion=True).as_long()) for k, v in addrs.items()} if model is not None else {}
+                    raise symx.Violation(f"a consistent set of interfaces was rejected: {e}", {"case": desc, "class": "construct rejects consistent configuration", "steps": [], "expect": "constructs"})
                 col.count("rejected_misconfiguration")
                 return None
             except Exception as e:
@@ -499,7 +543,12 @@ def _net_factory():
                 steps.append((client.name, server.name))
                 try:
                     net.reattach_interface(client, server)
-                except IndexError:
+                except IndexError as e:
+                    # every registered network has the pool 100-102: with at most two reattachments it cannot be used up
+                    if len(steps) <= 3:
+                        model = eng.current_model()
+                        desc["addresses"] = {k: _dotted(model.eval(v, model_completion=True).as_long()) for k, v in addrs.items()} if model is not None else {}
+                        raise symx.Violation(f"after reattaching {steps}: exhaustion reported although the pool 100-102 has free addresses: {e}", {"case": desc, "class": "reattach early exhaustion", "steps": steps, "expect": "free addresses"})
                     col.count("allocation_exhausted")
                     break
                 col.count("reattachments")
@@ -538,10 +587,25 @@ def replay_network(data: dict[str, Any]) -> tuple[bool, str]:
     env = StubEnv()
     try:
         net = VMNetwork(params, env)
-        for c, s in data.get("steps", []):
-            net.reattach_interface(env.vms[c], env.vms[s])
+    except IndexError as e:
+        if data.get("expect") == "constructs":
+            return True, f"rejected although no two interfaces have conflicting netmasks: {e}"
+        return False, f"concrete run raised IndexError: {e}"
     except Exception as e:
         return False, f"concrete run raised {type(e).__name__}: {e}"
+    if data.get("expect") == "constructs":
+        return False, "constructed"
+    try:
+        for c, s in data.get("steps", []):
+            net.reattach_interface(env.vms[c], env.vms[s])
+    except IndexError as e:
+        if data.get("expect") == "free addresses":
+            return True, f"exhaustion reported with free addresses: {e}"
+        return False, f"concrete run raised IndexError: {e}"
+    except Exception as e:
+        return False, f"concrete run raised {type(e).__name__}: {e}"
+    if data.get("expect") == "free addresses":
+        return False, "reattached"
     _handles.clear()
     bad = network_invariants(net, None, {})
     return (bad is not None), (bad[1] if bad else "network consistent")
